@@ -37,8 +37,11 @@ impl PanicInfo {
             parts.pop();
         }
         let loc = parts.join(":");
-        let loc = loc.trim_start_matches("/repo/").to_string();
-        loc
+        // wherever the library checkout lives, name the site relative to its src/ directory
+        match loc.rfind("/src/") {
+            Some(i) => loc[i + 1..].to_string(),
+            None => loc,
+        }
     }
 }
 
